@@ -73,7 +73,8 @@ pub struct Case {
     pub ctx: usize,
     /// ... except edge #deviate (in edge order), which uses context `deviate_ctx`
     pub deviate: Option<(usize, usize)>,
-    /// 0: all in one file; 1: one file per node (nested dirs); 2: types in one file, commands in another
+    /// 0: all in one file; 1: one file per node (nested dirs); 2: types in one file, commands in another;
+    /// 3: one file per node, each a symbolic link to a file outside the project
     pub layout: usize,
     /// how the serde derives are spelled (index into DERIVE_STYLES), rotating per node
     #[serde(default)]
@@ -177,6 +178,14 @@ impl Case {
                 }
                 files.push(("src/api.rs".into(), format!("{}{}{}", header, decoys, cmd)));
                 Project { files, links: vec![] }
+            }
+            3 => {
+                // as layout 1, but every type file is a symbolic link to a file kept outside the project
+                let mut links = vec![];
+                for u in 0..self.n {
+                    links.push((format!("src/shared/n{}.rs", u), format!("{}{}", header, self.node_def(u))));
+                }
+                Project { files: vec![("src/api.rs".into(), format!("{}{}{}", header, decoys, cmd))], links }
             }
             _ => {
                 let mut s = header.clone();
@@ -315,7 +324,7 @@ pub fn run(tier: Tier) -> CheckResult {
                 if *n == 4 && (gi + ctx) % 5 != (root as usize) {
                     continue;
                 }
-                let layout = (gi + ctx + root as usize) % 3;
+                let layout = (gi + ctx + root as usize) % 4;
                 for zod in [false, true] {
                     if tier == Tier::Quick && zod && (gi + ctx) % 2 == 0 {
                         continue;
